@@ -64,3 +64,74 @@ func VerifC14_StagedTrigger() {
 	}
 	zz.Assert("C14.staged.accepted_trigger_is_runnable", rates.IterationDuration > 0 && rates.Rate != nil)
 }
+
+// VerifC14_ParseStagesStructured: ParseStages on EVERY string that has up to 2 (thorough: 3) comma-separated elements
+// of up to 3 colon-separated parts each, every part an arbitrary string (any characters except ',' and ':') of up to
+// 6 characters — well-formed, malformed and near-miss inputs alike. The input is built as a concatenation of such
+// parts, so strings.Split / strings.TrimSpace are computed on its structure (engine, "structured strings"), and the
+// remaining string reasoning (white space, duration and integer grammars) is per part.
+//   * never panics;
+//   * rejected  <=> some element does not have exactly two parts, or its trimmed first part is not a duration, or its
+//     trimmed second part is not an integer; a rejection returns no stages;
+//   * accepted  =>  one stage per element, in order, each exactly (ParseDuration(trim(first)), Atoi(trim(second))),
+//     start targets left for the calculator.
+// Outside: more elements / parts / longer parts than stated.
+//
+//verif:timeout 120
+//verif:solver z3new
+func VerifC14_ParseStagesStructured() {
+	maxEl := 2
+	if zz.Thorough() {
+		maxEl = 3
+	}
+	n := 1 + zz.Choice("elements", maxEl)
+	var piece [3][3]string
+	var m [3]int
+	s := ""
+	for i := 0; i < n; i++ {
+		m[i] = 1 + zz.Choice("parts", 3, i)
+		if i > 0 {
+			s += ","
+		}
+		for j := 0; j < m[i]; j++ {
+			piece[i][j] = zz.StringExcluding("part", ",:", i, j)
+			zz.Assume(len(piece[i][j]) <= 6)
+			if j > 0 {
+				s += ":"
+			}
+			s += piece[i][j]
+		}
+	}
+	st, err := ParseStages(s)
+	zz.Cover("C14.stages2.returned")
+	zz.CoverIf("C14.stages2.accepted_two_elements", err == nil && n == 2)
+	zz.CoverIf("C14.stages2.rejected", err != nil)
+	wellFormed := true
+	var wantD [3]time.Duration
+	var wantT [3]int
+	for i := 0; i < n && wellFormed; i++ {
+		if m[i] != 2 {
+			wellFormed = false
+			break
+		}
+		d, derr := time.ParseDuration(strings.TrimSpace(piece[i][0]))
+		t, terr := strconv.Atoi(strings.TrimSpace(piece[i][1]))
+		if derr != nil || terr != nil {
+			wellFormed = false
+			break
+		}
+		wantD[i], wantT[i] = d, t
+	}
+	zz.Assert("C14.stages2.rejected_iff_malformed", (err != nil) == !wellFormed)
+	if err != nil {
+		zz.Assert("C14.stages2.rejected_returns_no_stages", st == nil)
+		return
+	}
+	zz.Assert("C14.stages2.one_stage_per_element", len(st) == n)
+	if len(st) != n || !wellFormed {
+		return
+	}
+	for i := 0; i < n; i++ {
+		zz.Assert("C14.stages2.element_means_what_it_spells", st[i].Duration == wantD[i] && st[i].EndTarget == wantT[i] && st[i].StartTarget == 0)
+	}
+}
